@@ -343,6 +343,29 @@ def run(ctx: core.Ctx):
                     m = model_apply(m, h)
                 frontier.append((m, hist))
         d += 1
+    # An operation repeated after it was undone: [o, u, o] (and [u, o, u, o] where o needs u first, e.g. o = UNSET) for
+    # every ordered pair of different operations o, u on the same variable of the same connection.  BFS over shortest
+    # histories never runs the same SET / UNSET text twice with another statement about that variable in between (the
+    # history returns to a known state and is cut), so whatever the session remembers per statement text about a
+    # state-changing statement is only exercised here.  The battery after every step compares with the model.
+    def target(o):
+        c, _sql, eff = OPS[o]
+        return (c, eff[1] if eff[0] == "copy" else eff[0])
+
+    extra = []
+    for o in ops:
+        for u in ops:
+            if o == u or target(o) != target(u):
+                continue
+            for hist in ([o, u], [u, o, u]):
+                m = init
+                for h in hist + [o]:
+                    m = model_apply(m, h) if m is not None else None
+                if m is not None:
+                    extra.append((hist, o))
+                    break
+    ctx.extra["repeat_after_undo_histories"] = len(extra)
+    ctx.pmap(expand, extra, recheck=False)
     for k in seen:
         ctx.acc.add("states", k)
     ctx.exhaustive = not frontier
